@@ -26,9 +26,22 @@ CHECKS.update({
  "C16": {"design_ref": "DESIGN 4 C16", "technique": MTECH + "; symbolic fault index over the three store flushes",
          "text": "With the flush of the 1st, 2nd or 3rd file failing (solver's choice) after a put or a delete: the call returns Err, lookups still agree with the ideal map, the handle stays dirty and a later fault-free flush leaves nothing unwritten.", "note": NOTE},
 })
+BTECH = TECH + "the real byte-level code on fully symbolic file images (in-memory model of the buffer layer), universally quantified post-conditions"
+CHECKS.update({
+ "C04": {"design_ref": "DESIGN 4 C04", "technique": MTECH + "; " + BTECH,
+         "text": "Two storeys. (1) The real bucket scan next_key_piece_offset on tables whose every byte is a solver variable (bitmap consistent with the heads): it returns exactly the least non-empty bucket at or after the start index, for every start index on tables of 1..16 buckets and every group-aligned start on 32..128 (thorough ..512) buckets, never extends the file, never overflows, and its loops terminate. (2) The five real iterators over an arbitrary valid map whose table obeys that contract: every live entry exactly once with its current value, exact size_hint before every step, None twice after the end.", "note": NOTE},
+ "C02": {"design_ref": "DESIGN 4 C02", "technique": BTECH + "; real open_with_params with the file system stubbed",
+         "text": "Reopening is a fresh handle over the same three files: the real open_with_params of all three files on EXISTING images (all bytes symbolic) with ARBITRARY parameters writes nothing, accepts the crate's own headers, and caches the STORED bucket count (the only datum a handle remembers), so that lookups address hash mod stored n; on new files it writes exactly the documented bytes. Together with C01's induction from arbitrary valid store states this gives contents-preservation across close/reopen.", "note": NOTE},
+ "C07": {"design_ref": "DESIGN 4 C07", "technique": BTECH + "; symbolic parameters through the real parameter-handling code",
+         "text": "Bucket count: Capacity -> power of two >= 8 and >= capacity for all capacities < 2^60 (0 panics as documented); BucketsSize(0..16) -> next power of two, stored = cached = used for the layout; parameters ignored on existing files; byte-level scan/bucket code for 1, 2, 4 buckets and map logic for 1 and 2 buckets against a size-independent oracle. Buffer sizes: every Size(u32) reaches the buffer layer with >= 2 chunks. Eviction inside rabuf itself is outside this technique (stated).", "note": NOTE},
+ "C12": {"design_ref": "DESIGN 4 C12", "technique": TECH + "differential harnesses: current code vs. a frozen format specification, symbolic inputs",
+         "text": "Against the frozen specification of the released format: placement hash of all five key types for every key up to 17 bytes; vu64 byte patterns for all u64; every field codec of vfile.rs (offset/8, size/8, lengths, free link) for all values incl. untouched neighbours; the three headers byte for byte; bucket position 128 + 8*(hash mod n) and item count position; slot-size decision of key and value records for all lengths; type signatures.", "note": NOTE},
+ "C13": {"design_ref": "DESIGN 4 C13", "technique": TECH + "16 symbolic signature bytes through the real header checkers and the real open_with_params (must-be-refused harnesses: cover after the call unreachable)",
+         "text": "For ALL 2^128 signature pairs different from (format signature, expected type signature) and all expected signatures, each of the three header checkers and each of the three open_with_params panics on the signature assertion before producing a handle, with the file under a read-only latch (no byte written, no length change). Pairwise distinctness of the five type signatures (u64/vu64 collision = recorded finding D5).", "note": NOTE},
+})
 NOT_APPLICABLE = {
  "C11": "registry of maps = five BTreeMap<String,_> + format!/PathBuf file naming + the OS file namespace: symbolic execution of that code does not finish (10 min in BTreeMap search/memcmp/io::Error drop glue for one concrete name) and isolation itself is a property of the file system, which this technique can only stub; the one solver-sized fact (clones share one Rc<RefCell<_>>) holds by type.",
 }
-for p in ["C02", "C04", "C05", "C14", "C15", "C17", "C18"]:
+for p in ["C05", "C14", "C15", "C17", "C18"]:
     NOT_APPLICABLE[p] = "check under construction in this session (see DESIGN 4); not claimed until its harness family reaches a verdict on the unchanged tree"
 NOTES = "All checks: exit 0 held (KNOWN-FINDING lines for recorded findings), exit 1 VIOLATION after native playback of the solver's counterexample, exit 2 inconclusive (timeout, out of memory, build failure of a re-linked harness crate, counterexample that does not replay). See DESIGN.md."
